@@ -142,11 +142,17 @@ func Harness_C06_activate_race() {
 	var m1, m2 *models.PortMapping
 	var e1, e2, e3 error
 	withRevoke := verif_Bool()
+	// the second activation comes from another client - or from the same one (a double submit,
+	// a retry through another node)
+	second := int64(2002)
+	if verif_Bool() {
+		second = 2001
+	}
 	verif_Spawn(func() {
 		m1, e1 = w.svc.ActivateConnectionCode(&ActivateRequest{Code: "abc-def-ghi", ListenClientID: 2001, ListenAddress: "0.0.0.0:9001"})
 	})
 	verif_Spawn(func() {
-		m2, e2 = svc2.ActivateConnectionCode(&ActivateRequest{Code: "abc-def-ghi", ListenClientID: 2002, ListenAddress: "0.0.0.0:9002"})
+		m2, e2 = svc2.ActivateConnectionCode(&ActivateRequest{Code: "abc-def-ghi", ListenClientID: second, ListenAddress: "0.0.0.0:9002"})
 	})
 	if withRevoke {
 		verif_Spawn(func() { e3 = w.svc.RevokeConnectionCode("abc-def-ghi", "owner") })
@@ -164,7 +170,7 @@ func Harness_C06_activate_race() {
 	if succ == 1 {
 		win, id := m1, int64(2001)
 		if e2 == nil {
-			win, id = m2, 2002
+			win, id = m2, second
 		}
 		verif_Assert("C06.race.winner_mapping", win != nil && win.ListenClientID == id && win.TargetClientID == 3001 && win.TargetAddress == "tcp://10.0.0.5:3306")
 		verif_Assert("C06.race.mapping_is_winners", len(w.maps.m) == 1 && w.maps.m[win.ID] != nil)
